@@ -17,10 +17,12 @@ REGISTRY = {
              "corpus model; 'Confirmed over all paths' required.",
         note=_BOUNDED),
     "C13": dict(
-        modules=["harness.c13_numeric"], e2=True, engine="E2-pybmc",
-        technique="bounded model checking of the real split_ranges/to_sortable source (AST -> z3 bit-vectors, unwinding + no-overflow obligations)",
+        modules=["harness.c13_numeric", "harness.c13_fields"], e2=True, engine="E2-pybmc",
+        technique="bounded model checking of the real split_ranges/to_sortable source (AST -> z3 bit-vectors, unwinding + no-overflow obligations); QF_FP for the float encoding; CrossHair symbolic bound/flag codes over real NUMERIC/DATETIME fields end to end",
         text="pybmc interprets the current source of whoosh.util.numeric over z3 bit-vectors; for every bit width and shift step the "
-             "negated exact-cover property is unsat over the whole domain; unwinding and no-overflow obligations discharged.",
+             "negated exact-cover property is unsat over the whole domain; unwinding and no-overflow obligations discharged.  End to end: "
+             "12 field configurations (widths, signedness, steps incl. those dividing bits-1, float, Decimal, DATETIME) with edge values; "
+             "ranges with symbolic bounds and exclusivity flags match exactly the documents in the interval; sorting and column read-back.",
         note=_BOUNDED),
 }
 
